@@ -44,13 +44,57 @@ def run(chk, tier):
     chk.trusted += ["core::str / core::slice methods (is_ascii, strip_prefix, as_bytes, split_first, Iterator::all/position, split, join)"]
 
 
+def ident_pred(prog):
+    """(path, verdict is a Result) of the identifier predicate: `utils::is_rust_identifier`, or -- under another name or with a `Result<(), _>`
+    verdict -- the one crate-local function from `&str` to `bool` / `Result<(), _>` that `Path::from_segments` (its closures included) consults"""
+    c = getattr(prog, "_c18_pred", None)
+    if c is not None:
+        return c
+    exact = [q for q in prog.fns if mir.strip_generics(q) == "scale_info::utils::is_rust_identifier"]
+    res = (None, False)
+    if len(exact) == 1 and prog.body(exact[0]) is not None:
+        res = (exact[0], False)
+    else:
+        cands = {}
+        for q in prog.fns:
+            if mir.strip_generics(q).split("::{closure")[0] != "scale_info::ty::path::Path::from_segments":
+                continue
+            b = prog.body(q)
+            if b is None:
+                continue
+            for _, t in b.calls():
+                tgt = t.get("resolved") or t.get("callee") or ""
+                f = prog.fns.get(tgt)
+                if f is None or not tgt.startswith("scale_info::") or f.get("kind") != "Fn" or len(f.get("inputs") or ()) != 1 or prog.body(tgt) is None:
+                    continue
+                i_, o_ = prog.ty_s(f["inputs"][0]), prog.ty_s(f["output"])
+                if i_.replace("'_ ", "") == "&str" and (o_ == "bool" or o_.startswith("core::result::Result<(), ")):
+                    cands[tgt] = o_ != "bool"
+        if len(cands) == 1:
+            res = list(cands.items())[0]
+    prog._c18_pred = res
+    return res
+
+
+def _verdict(r):
+    """a `Result<(), _>` verdict read as the boolean it stands for"""
+    if _is(r, "Ok"):
+        return True
+    if _is(r, "Err"):
+        return False
+    return r
+
+
 def acceptor(chk, prog, cfg):
     chk.rule("R18.1", "accepted language of is_rust_identifier = (r#)?[A-Za-z_][A-Za-z0-9_]* , decided by interpreting the whole function abstractly "
              "(helpers interpreted too) over scenarios: non-ASCII input; prefix stripped / not stripped; empty remainder; each of the 256 head bytes with an "
              "opaque tail; each of the 256 bytes for the tail predicate (see DESIGN.md C18 (a)-(e))")
-    b = cr.anchor(chk, prog, "utils::is_rust_identifier")
-    if b is None:
+    pp, _res = ident_pred(prog)
+    if pp is None:
+        chk.anchor_missing("utils::is_rust_identifier", "no identifier predicate: neither utils::is_rust_identifier nor a single crate-local `&str -> bool / Result<(), _>` "
+                           "function consulted by Path::from_segments")
         return
+    b = prog.body(pp)
     S = absint.Sym
     W = b.where
 
@@ -110,7 +154,7 @@ def acceptor(chk, prog, cfg):
             return None
 
         def run(self):
-            return absint.run(b, 0, {1: S("s")}, call=self.h, prog=prog, inline=True)
+            return _verdict(absint.run(b, 0, {1: S("s")}, call=self.h, prog=prog, inline=True))
 
     def falsy(r):
         return r is False or r == 0
@@ -121,6 +165,8 @@ def acceptor(chk, prog, cfg):
         rx = _re.compile(rb"(r#)?[A-Za-z_][A-Za-z0-9_]*\Z")
 
         def run_on(bs):
+            R = symrun.Run(prog, {})
+
             def h(name, args, t):
                 sp = mir.strip_generics(name)
                 last = sp.split("::")[-1]
@@ -128,6 +174,13 @@ def acceptor(chk, prog, cfg):
                     return all(x < 128 for x in bs)
                 if sp == "core::str::<impl str>::as_bytes" and len(args) == 1 and args[0] == S("s"):
                     return ("slice", list(bs), None)
+                if sp == "core::str::<impl str>::strip_prefix" and len(args) == 2 and args[0] == S("s") and isinstance(args[1], S) and args[1].name.startswith("str:"):
+                    pat = args[1].name[4:].encode()
+                    return absint.some(S("s-after:%d" % len(pat))) if bs.startswith(pat) and pat else absint.NONE
+                if sp == "core::str::<impl str>::as_bytes" and len(args) == 1 and isinstance(args[0], S) and args[0].name.startswith("s-after:"):
+                    return ("slice", list(bs[int(args[0].name[8:]):]), None)
+                if last == "split_first" and len(args) == 1 and isinstance(args[0], tuple) and args[0][:1] == ("slice",) and args[0][2] is None:
+                    return absint.some(("tuple", [args[0][1][0], ("slice", list(args[0][1][1:]), None)])) if args[0][1] else absint.NONE
                 if sp == "core::str::<impl str>::len" and args == [S("s")]:
                     return len(bs)
                 if last == "len" and len(args) == 1 and isinstance(args[0], tuple) and args[0][:1] == ("slice",) and args[0][2] is None:
@@ -149,8 +202,13 @@ def acceptor(chk, prog, cfg):
                     return absint.some(args[0][1][args[1]]) if 0 <= args[1] < len(args[0][1]) else absint.NONE
                 if last in ("first",) and len(args) == 1 and isinstance(args[0], tuple) and args[0][:1] == ("slice",):
                     return absint.some(args[0][1][0]) if args[0][1] else absint.NONE
+                # the tail walked by an iterator (`for &ch in tail`, `.iter().all(..)`): the concrete bytes in order
+                if last in ("iter", "into_iter") and len(args) == 1 and isinstance(args[0], tuple) and args[0][:1] == ("slice",) and args[0][2] is None:
+                    return R.handler(name, [("vec", tuple(args[0][1]))], t)
+                if args and isinstance(args[0], tuple) and args[0][:1] in (("iter",), ("miter",), ("eiter",), ("fiter",)):
+                    return R.handler(name, args, t)
                 return None
-            return absint.run(b, 0, {1: S("s")}, call=h, prog=prog, inline=True, max_steps=4000)
+            return _verdict(absint.run(b, 0, {1: S("s")}, call=h, prog=prog, inline=True, max_steps=4000))
         family = [b"", b"r#", b"r#r#a", b"r#_", b"r#9", b"_", b"a1_Z", b"r#a1", b"a-b", b"ab\xc3\xa9"]
         family += [bytes([v]) for v in range(256)] + [b"a" + bytes([v]) for v in range(256)] + [b"r#" + bytes([v]) for v in range(256)] + [b"_9" + bytes([v]) for v in range(0, 256, 3)]
         bad = []
@@ -268,6 +326,8 @@ def from_segments(chk, prog, cfg):
     W = b.where
     S = absint.Sym
     pred = {"checked": 0, "ok": True}
+    pred_path, pred_res = ident_pred(prog)
+    pred_path = mir.strip_generics(pred_path) if pred_path else None
 
     def mk(is_empty, bad):
         st = {"n": 0, "ident": True}
@@ -288,12 +348,11 @@ def from_segments(chk, prog, cfg):
                 return S("V-enum")
             if last == "into_iter" and args == [S("V-enum")]:
                 return S("V-enum")
-            if last == "is_rust_identifier" and len(args) == 1:
-                if args[0] == S("seg"):
-                    return st["ident"]
-                if args[0] == S("seg0"):
-                    return not bad
-                return None
+            if pred_path is not None and name == pred_path and len(args) == 1:
+                v_ = st["ident"] if args[0] == S("seg") else (not bad) if args[0] == S("seg0") else None
+                if v_ is None:
+                    return None
+                return v_ if not pred_res else (absint.ok(("tuple", [])) if v_ else absint.err(S("reason")))
             if last == "position" and len(args) == 2 and args[0] == S("V-iter") and isinstance(args[1], tuple) and args[1][:1] == ("closure",):
                 # the predicate must be the negation of is_rust_identifier on the item
                 for ident in (True, False):
@@ -367,6 +426,17 @@ def _prelude_direct(prog):
         return ok and "PANIC" in str(e), detail + "; invalid ident -> %s" % e
 
 
+def _iterator_impl(prog, v):
+    """path of `next` when v is a value of a crate-local struct with an Iterator impl of its own"""
+    if not (isinstance(v, tuple) and len(v) > 5 and v[0] == "variant" and isinstance(v[5], str) and v[5].startswith(prog.crate + "::")):
+        return None
+    for imp in prog.impl_for("core::iter::traits::iterator::Iterator", lambda ty: ty["k"] == "adt" and ty["d"] == v[5]):
+        fn = [it for it in imp["items"] if it["name"] == "next" and it.get("path") in prog._bodies_raw]
+        if fn:
+            return fn[0]["path"]
+    return None
+
+
 def _is(v, name):
     return isinstance(v, tuple) and len(v) >= 3 and v[0] == "variant" and v[1] == name
 
@@ -410,16 +480,25 @@ class PathRun(symrun.Run):
                     return ("map", args[0], "REPLACE-BY-FIRST-MATCHING-PAIR")
                 return ("map", args[0], tuple(sorted(outs.items(), key=repr)))
             return None
-        if last in ("eq", "ne") and len(args) == 2 and "match" in self.scen and S("seg") in args:
-            other = args[1] if args[0] == S("seg") else args[0]
+        if last == "next" and len(args) == 1 and isinstance(args[0], tuple) and args[0][:1] == ("split",):
+            # a hand-written adaptor pulling the module path's segments one by one: two of them, then the end
+            self.split_n = getattr(self, "split_n", 0) + 1
+            return absint.some(S("m%d" % (self.split_n - 1))) if self.split_n <= 2 else absint.NONE
+        if last == "size_hint" and len(args) == 1 and isinstance(args[0], tuple) and args[0][:1] == ("split",):
+            return ("tuple", [0, absint.NONE])
+        segs_ = [x for x in args if x in (S("seg"), S("m0"), S("m1"), S("IDENT"))] if len(args) == 2 else []
+        if last in ("eq", "ne") and len(args) == 2 and "match" in self.scen and len(segs_) == 1:
+            other = args[1] if args[0] == segs_[0] else args[0]
             if other in (S("s0"), S("s1")):
                 hit = int(other.name[1]) in self.scen["match"]
                 self.log.append(("cmp-search", other))
                 return hit if last == "eq" else not hit
             raise absint.Unrecognised("the segment is compared with %r (expected the `search` component of a pair)" % (other,))
-        if sp.endswith("utils::is_rust_identifier") and len(args) == 1:
+        pp_, pres_ = ident_pred(prog)
+        if pp_ is not None and sp == mir.strip_generics(pp_) and len(args) == 1:
             self.log.append(("is_rust_identifier", args[0]))
-            return bool(self.scen.get("valid", True))
+            v_ = bool(self.scen.get("valid", True))
+            return v_ if not pres_ else (absint.ok(("tuple", [])) if v_ else absint.err(S("reason")))
         if sp.endswith("Path::from_segments") and len(args) == 1:
             self.log.append(("from_segments", args[0]))
             return ("variant", "Ok", [S("PATH")], 0, ("0",), "core::result::Result") if self.scen.get("valid", True) else \
@@ -484,7 +563,40 @@ def constructors(chk, prog, cfg):
         except absint.Unrecognised as e:
             return None, r.log, str(e)
 
-    def judge(fn, args, seq_ok, key=None):
+    def materialised(fn, args, want_seq):
+        base = [S("m0"), S("m1"), S("IDENT")]
+        pats = ((), (0,), (1,), (0, 1)) if want_seq == "replace" else ((),)
+        seen = []
+        for m in pats:
+            r = PathRun(prog, {"valid": True, "match": set(m)})
+            ps = [p for p in prog.fns if mir.strip_generics(p) == "scale_info::ty::path::Path::" + fn]
+            try:
+                r.run(ps[0], args)
+                it = [x for x in r.log if x[0] == "from_segments"][0][1]
+                nxt = _iterator_impl(prog, it)
+                r.split_n = 0
+                items = []
+                for _ in range(6):
+                    out = {}
+                    nx = absint.run(prog.body(nxt), 0, {1: it}, call=r.handler, prog=prog, inline=True, max_steps=2000, mut_params=frozenset([1]), out_env=out)
+                    it = out.get(1, it)
+                    ov = absint.opt_view(nx)
+                    if ov is None:
+                        raise absint.Unrecognised("next() of the adaptor answers %s" % symrun.show(nx))
+                    if ov[0] != "Some":
+                        break
+                    items.append(ov[1])
+                else:
+                    raise absint.Unrecognised("the adaptor does not end after %s" % [symrun.show(x) for x in items])
+            except absint.Unrecognised as e:
+                return False, "cannot drive the hand-written segment iterator: %s" % e
+            want = base if not m else [S("r0") if 0 in m else S("r1")] * 3
+            seen.append((m, [symrun.show(x) for x in items]))
+            if _h(items) != _h(want):
+                return False, "hand-written segment iterator, match pattern %s: yields %s (required %s)" % (list(m), [symrun.show(x) for x in items], [x.name for x in want])
+        return True, "hand-written segment iterator driven to its end: %s" % seen
+
+    def judge(fn, args, seq_ok, key=None, want_seq="plain"):
         b = cr.anchor(chk, prog, "ty::path::Path::" + fn)
         if b is None:
             return
@@ -492,6 +604,10 @@ def constructors(chk, prog, cfg):
         fs = [x for x in (log or []) if x[0] == "from_segments"]
         ok = err is None and v == S("PATH") and len(fs) == 1 and seq_ok(_h(fs[0][1]))
         detail = "valid segments: from_segments(%s) -> %s" % (_h(fs[0][1]) if fs else "?", symrun.show(v) if err is None else err)
+        if not ok and err is None and v == S("PATH") and len(fs) == 1 and _iterator_impl(prog, fs[0][1]) is not None:
+            # the segments come out of a hand-written iterator: it is driven to its end on a module path of two segments (m0, m1), under every
+            # pattern of `segment == search_k` outcomes, and must yield what the adaptor stack yields
+            ok, detail = materialised(fn, args, want_seq)
         v2, log2, err2 = run(fn, args, {"valid": False})
         ok = ok and err2 is not None and "PANIC" in err2
         detail += "; invalid segments: %s" % (err2 or "returns %s (must panic)" % symrun.show(v2))
@@ -502,7 +618,7 @@ def constructors(chk, prog, cfg):
     # the replacement table is a concrete two-pair list [(s0, r0), (s1, r1)]; the mapped function is run under every pattern of `segment == s_k` outcomes
     TABLE = ("vec", (("tuple", [S("s0"), S("r0")]), ("tuple", [S("s1"), S("r1")])))
     REPL = _h(("map", SEQ, "REPLACE-BY-FIRST-MATCHING-PAIR"))
-    judge("new_with_replace", [S("IDENT"), S("MP"), TABLE], lambda q: q == REPL)
+    judge("new_with_replace", [S("IDENT"), S("MP"), TABLE], lambda q: q == REPL, want_seq="replace")
     judge("new_with_replace", [S("IDENT"), S("MP"), symrun.EMPTY_VEC], lambda q: q == _h(SEQ), key="Path::new_with_replace:empty-table")
     judge("prelude", [S("IDENT")], lambda q: q in (_h(("tuple", [S("IDENT")])), _h(("array", [S("IDENT")])), _h(("vec", (S("IDENT"),)))))
     # (that the pair is found by comparing the segment with the `search` components of the parameter's pairs, first match winning, is what the
